@@ -36,6 +36,7 @@ class _G(object):
     self.fn = fn
     self.gr = greenlet.greenlet(lambda: fn(*args, **kwargs), parent=world.driver)
     self.exc = None
+    self.tag = None
 
   def kill(self, exception=None, block=True, timeout=None):
     self.world.kill(self)
@@ -150,8 +151,7 @@ class World(object):
       self.parked = ('top', None, None)
     else:
       self.fifo.append(g)
-      if self.on_spawn:
-        self.on_spawn(fn)
+      g.tag = self.on_spawn(fn) if self.on_spawn else None
     return g
 
   def park(self, kind, expiry, event):
@@ -186,6 +186,7 @@ class World(object):
       raise RuntimeError('worker not resumable this way')
     kind = self.parked[0]
     self.parked = None
+    prev, _CUR[0] = _CUR[0], self             # several worlds may be alive: the running greenlet's world is current
     try:
       if kind in ('idle', 'timed'):
         self.worker.gr.switch(bool(by_event))
@@ -195,17 +196,23 @@ class World(object):
       pass
     except Exception as e:                     # the worker greenlet died with an exception
       self.worker_exc = type(e).__name__
+    finally:
+      _CUR[0] = prev
     if self.worker.gr.dead:
       self.parked = None
 
   def run_next(self):
     g = self.fifo.pop(0)
+    prev, _CUR[0] = _CUR[0], self
     try:
       g.gr.switch()
     except greenlet.GreenletExit:
       pass
-    except Exception as e:
-      self.action_errors.append(type(e).__name__)
+    except BaseException as e:             # an action greenlet that dies takes nothing else with it
+      if not getattr(e, 'expected', False):
+        self.action_errors.append(type(e).__name__)
+    finally:
+      _CUR[0] = prev
     if not g.gr.dead:
       raise RuntimeError('action greenlet blocked')
 
@@ -246,6 +253,10 @@ class RealWorld(object):
     self.on_spawn = None
     self.greenlets = []
     self.livelock = False
+    self.owners = {}
+    self.workers = []
+    import gevent
+    gevent.get_hub().exception_stream = None      # actions that raise on purpose must not spam stderr
 
   def activate(self):
     _CUR[0] = self
@@ -298,9 +309,15 @@ class RealWorld(object):
 
   def spawn(self, fn, args, kwargs):
     import gevent
-    if self.worker is None:
-      self.worker = gevent.spawn(fn, *args, **kwargs)
-      return self.worker
+    owner = getattr(fn, '__self__', None)
+    if owner is not None and hasattr(owner, 'Schedule') and id(owner) not in self.owners:
+      # first spawn by a TimerQueue instance = its worker
+      self.owners[id(owner)] = True
+      g = gevent.spawn(fn, *args, **kwargs)
+      self.workers.append(g)
+      if self.worker is None:
+        self.worker = g
+      return g
     if self.on_spawn:
       self.on_spawn(fn)
     g = gevent.spawn(fn, *args, **kwargs)
@@ -343,7 +360,7 @@ class RealWorld(object):
 
   def close(self):
     import gevent
-    gs = [g for g in [self.worker] + self.greenlets if g is not None]
+    gs = [g for g in self.workers + self.greenlets if g is not None]
     gevent.killall(gs, block=True, timeout=2.0)
     if _CUR[0] is self:
       _CUR[0] = None
